@@ -24,5 +24,7 @@ pub mod put_validation;
 mod runner;
 
 fn main() {
-    runner::main_dispatch(put_validation::harness::harnesses());
+    let mut v = put_validation::harness::harnesses();
+    v.extend(data_payments::harness::harnesses());
+    runner::main_dispatch(v);
 }
